@@ -865,6 +865,9 @@ func (g *evGen) cleanupRecursion(d int) string {
 // loopExpr: dolist / dotimes / do / do*. As a statement the value is ignored.
 func (g *evGen) loopExpr(d int, asStmt bool) string {
 	count := 1 + g.r.Intn(3)
+	if g.r.Chance(12) {
+		count = 0 // boundary: the body is never evaluated, the result form sees the variable all the same
+	}
 	if g.iter*count > 48 {
 		return g.leaf(tI)
 	}
@@ -1412,6 +1415,27 @@ func (g *evGen) maker() string {
 }
 
 // evGenProgram generates one composite program.
+// closureDefun: (let ((c init)) (defun f (q0) …c…)) — a named function closing over a let variable, called by the
+// program from outside that let. The name is new, or defined before (redefinition, the old definition called or not),
+// or referred to by the body of an earlier defun (forward reference).
+func (g *evGen) closureDefun() string {
+	g.count("defun-closure")
+	name, c := g.fresh("f"), g.fresh("c")
+	pre := ""
+	switch g.r.Intn(4) {
+	case 1:
+		pre = fmt.Sprintf("(defun %s (q0) (vtr (+ q0 1000))) (vtr (%s 1)) ", name, name)
+	case 2:
+		pre = fmt.Sprintf("(defun %s (q0) (+ q0 1000)) ", name)
+	case 3:
+		u := g.fresh("f")
+		pre = fmt.Sprintf("(defun %s (q0) (%s q0)) ", u, name)
+		g.funs = append(g.funs, gfun{name: u, arity: 1})
+	}
+	g.funs = append(g.funs, gfun{name: name, arity: 1})
+	return pre + fmt.Sprintf("(let ((%s %s)) (defun %s (q0) (setq %s (+ %s q0)) (vtr %s)))", c, g.lit(), name, c, c, c)
+}
+
 func evGenProgram(r *lib.Rng, caseID int, ctl bool, avoid func(cell, exit string) bool, hist map[string]int) string {
 	g := &evGen{r: r, prefix: fmt.Sprintf("k%d", caseID), ctl: ctl, avoid: avoid, hist: hist, iter: 1}
 	g.shadow = r.Chance(30)
@@ -1441,6 +1465,9 @@ func evGenProgram(r *lib.Rng, caseID int, ctl bool, avoid func(cell, exit string
 	}
 	if !g.shadow && r.Chance(35) {
 		parts = append(parts, g.maker())
+	}
+	if r.Chance(25) {
+		parts = append(parts, g.closureDefun())
 	}
 	d := 2 + r.Intn(4) // generator nesting depth 2..5 (plus the defun level)
 	t := []int{tI, tI, tL, tB}[r.Intn(4)]
